@@ -149,9 +149,107 @@ fn to_origin_form(req: http::Request<hyper::Body>) -> (http::Request<hyper::Body
     (http::Request::from_parts(parts, body), pq)
 }
 
+/// The mock server reached over a real loopback socket, one keep-alive connection for the whole case (as a pooled HTTP
+/// client would use it): started with `OmahaServer::start` on an ephemeral port of a current-thread tokio runtime.
+pub struct SocketConn {
+    rt: tokio::runtime::Runtime,
+    stream: Option<tokio::net::TcpStream>,
+}
+impl SocketConn {
+    pub fn start(server: &Arc<TMutex<OmahaServer>>) -> Option<SocketConn> {
+        let rt = tokio::runtime::Builder::new_current_thread().enable_all().build().ok()?;
+        let server = server.clone();
+        let stream = rt.block_on(async move {
+            let (addr, _task) = OmahaServer::start(server, None).await.ok()?;
+            let hostport = addr.trim_start_matches("http://").trim_end_matches('/').to_string();
+            tokio::net::TcpStream::connect(hostport).await.ok()
+        })?;
+        Some(SocketConn { rt, stream: Some(stream) })
+    }
+    /// one HTTP/1.1 exchange on the kept-alive connection; the body is written in `frames` pieces
+    fn exchange(&mut self, method: &str, pq: &str, headers: &[(String, Vec<u8>)], body: &[u8], frames: usize) -> Result<(u16, Option<Vec<u8>>, Vec<u8>), String> {
+        use tokio::io::{AsyncReadExt, AsyncWriteExt};
+        let Some(stream) = self.stream.as_mut() else { return Err("connection closed by the server".into()) };
+        let mut head = format!("{method} {pq} HTTP/1.1\r\nhost: mock.test\r\ncontent-length: {}\r\n", body.len()).into_bytes();
+        for (k, v) in headers {
+            if k.eq_ignore_ascii_case("content-length") || k.eq_ignore_ascii_case("host") {
+                continue;
+            }
+            head.extend_from_slice(k.as_bytes());
+            head.extend_from_slice(b": ");
+            head.extend_from_slice(v);
+            head.extend_from_slice(b"\r\n");
+        }
+        head.extend_from_slice(b"\r\n");
+        let size = ((body.len() + frames.max(1) - 1) / frames.max(1)).max(1);
+        let r = self.rt.block_on(async {
+            stream.write_all(&head).await.map_err(|e| e.to_string())?;
+            for chunk in body.chunks(size) {
+                stream.write_all(chunk).await.map_err(|e| e.to_string())?;
+                stream.flush().await.map_err(|e| e.to_string())?;
+                tokio::task::yield_now().await;
+            }
+            let mut buf: Vec<u8> = vec![];
+            let mut tmp = [0u8; 4096];
+            let head_end = loop {
+                if let Some(i) = buf.windows(4).position(|w| w == b"\r\n\r\n") {
+                    break i + 4;
+                }
+                let n = stream.read(&mut tmp).await.map_err(|e| e.to_string())?;
+                if n == 0 {
+                    return Err("connection closed by the server".to_string());
+                }
+                buf.extend_from_slice(&tmp[..n]);
+            };
+            let head_text = String::from_utf8_lossy(&buf[..head_end]).to_string();
+            let mut lines = head_text.split("\r\n");
+            let status: u16 = lines.next().and_then(|l| l.split(' ').nth(1)).and_then(|x| x.parse().ok()).ok_or("bad status line")?;
+            let mut len = 0usize;
+            let mut etag = None;
+            for l in lines {
+                if let Some((k, v)) = l.split_once(':') {
+                    if k.eq_ignore_ascii_case("content-length") {
+                        len = v.trim().parse().map_err(|_| "bad content-length")?;
+                    }
+                    if k.eq_ignore_ascii_case("etag") && etag.is_none() {
+                        etag = Some(v.trim().as_bytes().to_vec());
+                    }
+                }
+            }
+            while buf.len() < head_end + len {
+                let n = stream.read(&mut tmp).await.map_err(|e| e.to_string())?;
+                if n == 0 {
+                    return Err("connection closed by the server".to_string());
+                }
+                buf.extend_from_slice(&tmp[..n]);
+            }
+            Ok((status, etag, buf[head_end..head_end + len].to_vec()))
+        });
+        if r.is_err() {
+            self.stream = None;
+        }
+        r
+    }
+}
+
 /// `frames` > 1: the request body reaches the server in that many data frames (as it does over a socket when it
 /// exceeds one read or is split across segments) instead of one.
-fn call_server(server: &Arc<TMutex<OmahaServer>>, req: http::Request<hyper::Body>, frames: usize) -> Result<(u16, Option<Vec<u8>>, Vec<u8>), String> {
+fn call_server(server: &Arc<TMutex<OmahaServer>>, req: http::Request<hyper::Body>, frames: usize, sock: Option<&mut SocketConn>) -> Result<(u16, Option<Vec<u8>>, Vec<u8>), String> {
+    if let Some(sock) = sock {
+        let (parts, body) = req.into_parts();
+        let bytes = block_on(hyper::body::to_bytes(body)).map_err(|e| e.to_string())?.to_vec();
+        let headers: Vec<(String, Vec<u8>)> = parts.headers.iter().map(|(k, v)| (k.as_str().to_string(), v.as_bytes().to_vec())).collect();
+        let pq = parts.uri.path_and_query().map(|p| p.as_str().to_string()).unwrap_or_else(|| "/".into());
+        let r = catch(|| sock.exchange(parts.method.as_str(), &pq, &headers, &bytes, frames));
+        return match r {
+            Ok(Ok(x)) => Ok(x),
+            Ok(Err(e)) => match take_last_panic() {
+                Some((loc, msg)) => Err(format!("PANIC at {}: {msg}", short_loc(&loc))),
+                None => Err(e),
+            },
+            Err((loc, msg)) => Err(format!("PANIC at {}: {msg}", short_loc(&loc))),
+        };
+    }
     let r = catch(|| {
         block_on(async {
             let (req, feeder) = if frames > 1 {
@@ -192,6 +290,7 @@ fn case_direct(t: &mut Tape, ctx: &CaseCtx) -> CaseResult {
     let reconf_style: Vec<usize> = (0..4).map(|_| t.choose(6)).collect();
     let frames = if t.chance(1, 3) { 2 + t.choose(3) } else { 1 };
     let cohort_moves_on = reconfigure && t.flag();
+    let over_socket = t.chance(1, 8);
     if t.chance(1, 6) {
         // a forced ETag: any visible-ASCII text
         const TOK: [&str; 8] = ["00", ":", "\"", "W/", "ab", "3045", " ", "~"];
@@ -206,6 +305,8 @@ fn case_direct(t: &mut Tape, ctx: &CaseCtx) -> CaseResult {
         "disable_updates": c.disable_updates, "reconfigure": reconfigure, "require_cup": c.require_cup, "forced_etag": c.etag_override});
     let bad = |sig: &str, msg: String| Err(Failure::new(sig, msg, case.clone()));
     let server = Arc::new(TMutex::new(server_of(&c)));
+    // one case in eight talks to the server the way a pooled HTTP client does: a real socket, one kept-alive connection
+    let mut sock = if over_socket { SocketConn::start(&server) } else { None };
     let config = config_of(&c);
     let params = RequestParams { source: if c.on_demand { InstallSource::OnDemand } else { InstallSource::ScheduledTask }, use_configured_proxies: false, disable_updates: c.disable_updates, offer_update_if_same_version: false };
     let handler = c.client_keys.as_ref().map(|k| StandardCupv2Handler::new(&cupref::public_keys(k[0], &k[1..])));
@@ -281,7 +382,7 @@ fn case_direct(t: &mut Tape, ctx: &CaseCtx) -> CaseResult {
                 }
             }
             let req = http::Request::post("/set_responses_by_appid").body(hyper::Body::from(body.to_string())).unwrap();
-            match call_server(&server, req, frames) {
+            match call_server(&server, req, frames, sock.as_mut()) {
                 Ok((200, _, _)) => {}
                 other => return bad("reconfiguration-failed", format!("/set_responses_by_appid answered {other:?}")),
             }
@@ -303,7 +404,7 @@ fn case_direct(t: &mut Tape, ctx: &CaseCtx) -> CaseResult {
             Err(e) => return Ok(CaseReport { key: hash_of(&c.url.text), classes: vec!["client_build_error"], sample: ctx.want_sample.then(|| json!({"case": case, "error": format!("{e:?}")})), ..Default::default() }),
         };
         let (req, pq) = to_origin_form(req);
-        let (status, etag, body) = match call_server(&server, req, frames) {
+        let (status, etag, body) = match call_server(&server, req, frames, sock.as_mut()) {
             Ok(x) => x,
             Err(e) if e.starts_with("PANIC") => {
                 let loc = e.split(':').nth(0).unwrap_or("").to_string() + ":" + e.split(':').nth(1).unwrap_or("");
@@ -362,7 +463,14 @@ fn case_direct(t: &mut Tape, ctx: &CaseCtx) -> CaseResult {
         }
         // CUP
         if let Some(forced) = &c.etag_override {
-            if etag.as_deref() != Some(forced.as_bytes()) {
+            // over a socket HTTP itself strips optional whitespace around a header value (and drops an empty one)
+            let sent_as_forced = if sock.is_some() {
+                let f = forced.trim_matches(|c| c == ' ' || c == '\t');
+                etag.as_deref().unwrap_or(b"") == f.as_bytes()
+            } else {
+                etag.as_deref() == Some(forced.as_bytes())
+            };
+            if !sent_as_forced {
                 return bad("forced-etag-not-sent", format!("the server is configured to force the ETag {forced:?} but sent {:?}", etag.as_ref().map(|e| String::from_utf8_lossy(e).to_string())));
             }
         } else if let (Some(h), Some(meta)) = (&handler, &meta) {
@@ -417,6 +525,9 @@ fn case_direct(t: &mut Tape, ctx: &CaseCtx) -> CaseResult {
         "client latest = a server historical key" => "key_historical",
         _ => "key_unknown_to_server",
     });
+    if sock.is_some() {
+        classes.push("over_a_kept_alive_socket");
+    }
     if events_only {
         classes.push("event_request");
     }
